@@ -11,7 +11,8 @@ EXPLANATION = ('DefaultCacheState: (a) every entry entering the LRU queue adds k
                'is_valid_for implementations return true only through the true edges of the size AND last_modified comparisons; (d) each '
                'consumer of the file statistics / metadata caches touches the cached payload only behind the true edge of is_valid_for; '
                '(e) SessionContext::invalidate_caches drops the table\'s entries from both the list-files and the file-statistics cache '
-               'and is called from the deregistration paths; (f) get/contains_key return a hit only on the not-expired path. LRU order is not decided.')
+               'and is called from the deregistration paths; (f) get/contains_key return a hit only on the not-expired path; (g) the expiry stamp of a cache '
+               'entry is only given a value by constructing the entry (no later assignment or mutable borrow of it in the cache module). LRU order is not decided.')
 # path rules cut loops after a bounded number of iterations: complete over rule instances, not over all unrollings
 EXHAUSTIVE = False
 ASSUMPTIONS = ['LruQueue::{put,remove,pop,clear} are the only ways entries enter or leave the queue']
@@ -240,6 +241,51 @@ def check_consumer(ctx, facts, d, rule='use-behind-validity'):
     return 0
 
 
+def expiry_fixed_at_insertion(ctx, facts, prefix=DC, rule='expiry-fixed-at-insertion'):
+    """'a cached listing is used only within its time-to-live': the TTL clock of an entry starts when it is cached.  Structural clause: the expiry
+    stamp (the field of type Option<Instant> of the cache entry struct) is only ever given a value by constructing the entry; no function of the cache
+    module assigns to it or takes a mutable reference to it afterwards (re-stamping would let an entry outlive cached_at + ttl)."""
+    entry = []
+    for p, a in facts.adts.items():
+        if p.startswith(prefix) and a.get('kind') == 'struct' and not a.get('ext'):
+            fl = [x[0] for x in a['variants'][0]['fields'] if 'Instant' in x[1]]
+            if fl:
+                entry.append((p, fl))
+    if not entry:
+        ctx.lost(rule, prefix + '<cache entry struct with an expiry instant>')
+        return 1
+    bad = 0
+    stamped = 0
+    for p, fl in entry:
+        writers = []
+        for d, i, e in facts.all_fn_entries():
+            if not d.startswith(prefix) or '::tests::' in d or '::test::' in d:
+                continue
+            rec = facts.fn(d, i)
+            for b in rec['bb']:
+                for st in b['s']:
+                    if st[0] != '=':
+                        continue
+                    projs = st[1][1]
+                    if any(isinstance(q, list) and q[0] == 'f' and len(q) > 3 and q[3] == p and q[2] in fl for q in projs):
+                        writers.append((d, st[3] if len(st) > 3 else 0, 'assigns'))
+                    rv = st[2]
+                    if rv[0] == 'ref' and len(rv) > 2 and rv[2] and any(isinstance(q, list) and q[0] == 'f' and len(q) > 3 and q[3] == p and q[2] in fl for q in rv[1][1]):
+                        writers.append((d, st[3] if len(st) > 3 else 0, 'mutably borrows'))
+                    if rv[0] == 'agg' and isinstance(rv[1], list) and rv[1][0] == 'adt' and rv[1][1] == p:
+                        stamped += 1
+        inst = '%s.%s' % (p.rsplit('::', 1)[-1], '/'.join(fl))
+        if writers:
+            bad += 1
+            w = writers[0]
+            rec = facts.fn(w[0])
+            ctx.fail(rule, inst, ctx.loc(rec, w[1] or None), '%s %s the expiry stamp of an existing cache entry: an entry can then be served after cached_at + ttl' % (w[0].rsplit('::', 1)[-1], w[2]),
+                     key='%s|%s|%s' % (rule, inst, w[0]))
+        else:
+            ctx.ok(rule, inst, sample={'entry': p, 'expiry_field': fl, 'constructions_seen': stamped})
+    return bad
+
+
 def run(ctx):
     f = ctx.facts
     names = {m: DCS + m for m in ('put', 'remove', 'evict_entries', 'clear')}
@@ -331,6 +377,8 @@ def run(ctx):
             ctx.fail('drop-table-invalidates', 'callers', ctx.loc(rec), 'invalidate_caches is reached from %s only (expected the DROP TABLE and deregister_table paths)' % cs, key='drop-table-invalidates|callers')
         else:
             ctx.ok('drop-table-invalidates', 'callers', sample={'callers': cs})
+    # (g) expiry stamp
+    expiry_fixed_at_insertion(ctx, f)
     # selftest
     import common
     st = ctx.st
@@ -341,3 +389,5 @@ def run(ctx):
     ctx.selftest('accounting rule detects a replaced entry whose key size is not credited and a remove that forgets the value size', b1 >= 2)
     b2 = check_valid_for(probe, st, SC + 'Cached::is_valid_for', rule='st2')
     ctx.selftest('validity rule detects is_valid_for that ignores last_modified', b2 > 0)
+    b3 = expiry_fixed_at_insertion(probe, st, prefix=SC, rule='st3')
+    ctx.selftest('expiry rule detects a function that re-stamps the expiry of existing entries', b3 > 0)
